@@ -634,7 +634,7 @@ def required_labels(tier):
 
 def phases(tier, seed):
     os.makedirs(os.path.join(ROOT, '.work'), exist_ok=True)
-    n = 9600 if tier == 'quick' else 32000
+    n = 9600 if tier == 'quick' else 200000
     return [
         Enum('kind-grid', kind_grid, exhaustive=True, note='13 kinds x 9 spellings of kind / extension / flags'),
         Enum('unknown-extensions', unknown_cases, exhaustive=True),
